@@ -37,6 +37,12 @@ def o21(ctx):
 
 
 # ---------------------------------------------------------------------------------------------- lexical agreement
+class LinesDropped(Exception):
+    def __init__(self, node):
+        super().__init__("lines dropped")
+        self.node = node
+
+
 def reader_constants(prog):
     m, fn = prog.func("starfileio.Token.tokenize")
     consts = {"property": set(), "loop": set(), "comment": set(), "linesep": set()}
@@ -58,6 +64,19 @@ def reader_constants(prog):
     for k, v in consts.items():
         if len(v) != 1:
             raise Unsupported(f"tokenizer constant for {k} not unique: {sorted(v)}", fn)
+    # every line of the text reaches the tokenizer: the iterated sequence is the split itself, nothing sliced off it
+    splits = [n for n in ast.walk(fn) if isinstance(n, ast.Call) and isinstance(n.func, ast.Attribute) and n.func.attr in ("split", "splitlines")]
+    if len(splits) != 1:
+        raise Unsupported("line split of the tokenizer not unique", fn)
+    node = splits[0]
+    par = m.parents.get(node)
+    while isinstance(par, (ast.Subscript, ast.Call, ast.Starred)) and not isinstance(par, ast.stmt):
+        if isinstance(par, ast.Subscript) and par.value is node and isinstance(par.slice, ast.Slice) and (par.slice.lower is not None or par.slice.upper is not None
+                                                                                                       or par.slice.step is not None):
+            raise LinesDropped(par)
+        if isinstance(par, ast.Call) and not (isinstance(par.func, ast.Name) and par.func.id in ("enumerate", "list", "iter")):
+            break
+        node, par = par, m.parents.get(par)
     uses_isspace = any(isinstance(n, ast.Attribute) and n.attr == "isspace" for n in ast.walk(fn))
     if not uses_isspace:
         raise Unsupported("tokenizer does not classify separators with str.isspace", fn)
@@ -117,7 +136,14 @@ def template(node):
 
 
 def o22(ctx):
-    c, mt, ft = reader_constants(ctx.prog)
+    try:
+        c, mt, ft = reader_constants(ctx.prog)
+    except LinesDropped as e:
+        mt, ft = ctx.prog.func("starfileio.Token.tokenize")
+        ctx.count(1)
+        ctx.finding("starfileio.Token.tokenize", e.node, "the tokenizer does not see every line of the text: the split is sliced, so a last line "
+                    "without a final line break (files written by other programs, texts held in memory) is silently dropped", e.node, mt)
+        return
     ctx.touched("starfileio.Token.tokenize", WR)
     ctx.count(1, {"tokenizer constants": c})
     m, fn = ctx.prog.func(WR)
@@ -260,7 +286,10 @@ def o23(ctx):
     it = Interp(ctx.prog)
     r = it.run(fq, [Val(sym("cell"))], {})
     term = to_term(r.ret)
-    c, _, _ = reader_constants(ctx.prog)
+    try:
+        c, _, _ = reader_constants(ctx.prog)
+    except LinesDropped:
+        c = {"property": "_", "loop": "loop_", "comment": "#", "linesep": "\n"}  # reported by O2.2
     bad = []
     for v in FLOATS + INTS + TEXTS:
         try:
